@@ -30,7 +30,7 @@ def signature(stderr_text):
     if m:
         loc = re.search(r"(\S+?):(\d+):\d+: runtime error", t)
         return "ubsan: %s @ %s" % (re.sub(r"0x[0-9a-f]+", "ADDR", m.group(1))[:120],
-                                     os.path.basename(loc.group(1)) + ":" + loc.group(2) if loc else "?")
+                                     os.path.basename(loc.group(1)) if loc else "?")   # no line number: it moves with unrelated edits
     m = re.search(r"ERROR: AddressSanitizer: (\S+)", t)
     if m:
         frames = re.findall(r"#\d+ 0x[0-9a-f]+ in (\S+) (\S+)", t)
